@@ -82,14 +82,17 @@ def webvtt_timing_line(c):
 
 
 def webvtt_timing_validation(c):
-    """with ignore_timing_errors off: start > end and start < previous start are rejected, others pass"""
+    """with ignore_timing_errors off: start > end and start < previous start (both as the reader
+    reports them, i.e. shifted - `last_start` is the previous cue's reported start) are rejected,
+    everything else passes with both ends shifted"""
     M1, S1, F1 = c.digits("M1", n=2), c.digits("S1", n=2), c.digits("F1", n=3)
     M2, S2, F2 = c.digits("M2", n=2), c.digits("S2", n=2), c.digits("F2", n=3)
     last = c.int("last_start", 0, 10 ** 10)
     line = M1 + ":" + S1 + "." + F1 + " --> " + M2 + ":" + S2 + "." + F2
-    rd = c.new(WebVTTReader, ignore_timing_errors=False, time_shift_microseconds=0)
-    st = hms(0, M1.val, S1.val) + F1.val * 1000
-    en = hms(0, M2.val, S2.val) + F2.val * 1000
+    shift = c.int("shift_ms", -10 ** 7, 10 ** 7)
+    rd = c.new(WebVTTReader, ignore_timing_errors=False, time_shift_microseconds=shift * 1000)
+    st = hms(0, M1.val, S1.val) + F1.val * 1000 + shift * 1000
+    en = hms(0, M2.val, S2.val) + F2.val * 1000 + shift * 1000
     r = c.call(WebVTTReader._parse_timing_line, rd, line, last, raises=(CaptionReadError,))
     bad = c.truth((st > en) | (st < last))
     from pyvc.verify import Raised
@@ -98,6 +101,7 @@ def webvtt_timing_validation(c):
     else:
         c.ensure("accepted_only_if_valid", not bad)
         c.ensure("start", r[0] == st)
+        c.ensure("end", r[1] == en)
         c.ensure("end", r[1] == en)
 
 
